@@ -271,6 +271,8 @@ def bad(A):
 def good(A):
     d = A.diagonal(axis1=1, axis2=2)
     return jnp.sum(jnp.log(d), axis=1)
+def bad2(m):
+    return jnp.log(m.integral())
 '''
 
 
@@ -294,10 +296,29 @@ def _is_array_product(n):
     return True
 
 
-def _logdomain_violations(fn, relpath, qual):
-    """log(...) of a product / determinant over a whole dimension (directly, or through a local name assigned from one)"""
+def _exp_returning(prog):
+    """names of library functions whose every return value is exp(...) (integral = exp(log_integral), evaluate = exp(evaluate_ln) ...)"""
+    import ast
+    names = set()
+    for mod, tree in prog.modules.items():
+        for fn in ast.walk(tree):
+            if isinstance(fn, ast.FunctionDef):
+                rets = [r for r in ast.walk(fn) if isinstance(r, ast.Return) and r.value is not None]
+                if rets and all(_is_call_to(r.value, ("exp",)) for r in rets):
+                    names.add(fn.name)
+    return names
+
+
+def _logdomain_violations(fn, relpath, qual, exp_fns=()):
+    """log(...) of a product / determinant over a whole dimension (directly, or through a local name assigned from one);
+    log(exp(.)) - directly, through a local name, or through a library function that returns exp(.) - which is the identity only while |.| < 708"""
     import ast
     tainted = {}
+    etaint = {}
+    is_exp = lambda m: _is_call_to(m, ("exp",) + tuple(exp_fns))
+    for n in ast.walk(fn):
+        if isinstance(n, ast.Assign) and len(n.targets) == 1 and isinstance(n.targets[0], ast.Name) and is_exp(n.value):
+            etaint[n.targets[0].id] = n.lineno
     for n in ast.walk(fn):
         if isinstance(n, ast.Assign) and len(n.targets) == 1 and isinstance(n.targets[0], ast.Name):
             if any(_is_array_product(m) for m in ast.walk(n.value)):
@@ -310,6 +331,10 @@ def _logdomain_violations(fn, relpath, qual):
         arg = n.args[0]
         hit = next((m for m in ast.walk(arg) if _is_array_product(m)), None)
         name = next((m.id for m in ast.walk(arg) if isinstance(m, ast.Name) and m.id in tainted), None)
+        if is_exp(arg) or (isinstance(arg, ast.Name) and arg.id in etaint):
+            out.append(f"{relpath}:{n.lineno} in {qual(n.lineno)}: `{ast.unparse(n)[:100]}` takes the logarithm of an exponential: exp(z) leaves the float64 range for "
+                       "|z| > 708 (log-integrals / log-densities of that size are ordinary), so the result is +-inf where z is finite; keep the value in the log domain")
+            continue
         if hit is not None or name is not None:
             what = ast.unparse(hit)[:80] if hit is not None else f"{name} (assigned from a product at line {tainted[name]})"
             out.append(f"{relpath}:{n.lineno} in {qual(n.lineno)}: `{ast.unparse(n)[:100]}` takes the logarithm of the product `{what}`: the product of D entries "
@@ -329,11 +354,15 @@ def logdomain_ob(prog, group):
         w, _ = _logdomain_violations(t.body[1], "synthetic", lambda l: "good")
         if len(v) != 1 or w:
             raise Undecided("log-domain rule: synthetic positive / negative example mismatch")
+        x, _ = _logdomain_violations(t.body[2], "synthetic", lambda l: "bad2", ("integral",))
+        if len(x) != 1:
+            raise Undecided("log-domain rule: synthetic log(exp) example mismatch")
         bad, sites = [], 0
+        exp_fns = _exp_returning(prog)
         for mod, tree in prog.modules.items():
             for fn in ast.walk(tree):
                 if isinstance(fn, (ast.FunctionDef, ast.Lambda)):
-                    b, k = _logdomain_violations(fn, prog.relpath(mod), lambda l, mod=mod: prog.qualname_at(mod, l))
+                    b, k = _logdomain_violations(fn, prog.relpath(mod), lambda l, mod=mod: prog.qualname_at(mod, l), exp_fns)
                     if isinstance(fn, ast.FunctionDef):
                         sites += k
                     bad += b
@@ -344,7 +373,7 @@ def logdomain_ob(prog, group):
             raise Refuted("; ".join(bad[:2]), bad[0].split(":")[0] + "::" + bad[0].split(" in ")[1].split(":")[0], bad)
         return [], dict(sites=sites)
     return Ob("logdomain/no-log-of-product", run,
-              "no logarithm is taken of a product / determinant over a whole dimension (log-determinants are accumulated in the log domain, so they stay finite for every D)",
+              "no logarithm is taken of a product / determinant over a whole dimension, nor of an exponential (log-determinants and log-integrals stay in the log domain, finite for every D and every evidence)",
               "gaussian_toolbox/utils/linalg.py::invert_diagonal", group=group)
 
 
@@ -394,6 +423,26 @@ def no_narrowing_ob(prog, group):
         for mod, tree in prog.modules.items():
             nmods += 1
             bad += _narrowing_sites(tree, prog.relpath(mod), lambda l, mod=mod: prog.qualname_at(mod, l))
+            # values computed with jax at IMPORT time (module- / class-level constants) have the default dtype of that moment: float32
+            # unless jax_enable_x64 was switched on before the package was imported (the test-suite, like most users, enables it after)
+            consts = [(n.targets[0].id if isinstance(n, ast.Assign) else n.target.id, n.value, n.lineno) for n in tree.body
+                      if (isinstance(n, ast.Assign) and len(n.targets) == 1 and isinstance(n.targets[0], ast.Name))
+                      or (isinstance(n, ast.AnnAssign) and isinstance(n.target, ast.Name) and n.value is not None)]
+            for c in ast.walk(tree):
+                if isinstance(c, ast.ClassDef):
+                    consts += [(f"{c.name}.{b.targets[0].id}", b.value, b.lineno) for b in c.body
+                               if isinstance(b, ast.Assign) and len(b.targets) == 1 and isinstance(b.targets[0], ast.Name)]
+            for name, val, line in consts:
+                for m in ast.walk(val):
+                    if isinstance(m, ast.Call):
+                        r = prog.resolve_static(mod, m.func)
+                        int_only = all(isinstance(k, (ast.List, ast.Tuple, ast.UnaryOp)) or (isinstance(k, ast.Constant) and isinstance(k.value, (int, bool)) )
+                                       for a in m.args for k in ast.walk(a) if not isinstance(k, (ast.Load, ast.USub, ast.UAdd)))
+                        if r and r[0] == "ext" and r[1].startswith(("jax.numpy.", "jax.scipy.", "jax.lax.", "jax.random.")) and not r[1].endswith(("float64", "int32", "int64")) \
+                                and not (int_only and r[1].rsplit(".", 1)[1] in ("arange", "array", "asarray", "zeros", "ones") and not m.keywords):
+                            bad.append(f"{prog.relpath(mod)}:{line} in <import time>: `{name} = {ast.unparse(val)[:60]}` is computed by {r[1]} when the package is "
+                                       "imported - with the default dtype of that moment (float32 unless x64 was enabled before the import)")
+                            break
         if nmods < 8:
             raise Undecided(f"only {nmods} modules scanned")
         bad = sorted(set(bad))
@@ -401,4 +450,131 @@ def no_narrowing_ob(prog, group):
             raise Refuted("; ".join(bad[:2]), bad[0].split(":")[0] + "::" + bad[0].split(" in ")[1].split(":")[0], bad)
         return [], dict(modules=nmods)
     return Ob("dtype/no-narrowing", run, "no floating-point value is cast below float64 anywhere in the library (astype / dtype= / jnp.float32 ...)",
+              "gaussian_toolbox/*", group=group)
+
+
+# ---------------------------------------------------------------- hidden-state rule (results must not depend on call history)
+HS_SYNTH = '''
+_CACHE = {}
+def bad_default(x, acc=[]):
+    acc.append(x)
+    return acc
+def bad_global(x):
+    global _COUNT
+    _COUNT = x
+    return x
+@functools.lru_cache(maxsize=None)
+def bad_memo(x):
+    return x
+def bad_module_dict(x):
+    memo = _CACHE
+    memo[id(x)] = x
+    return _CACHE[id(x)]
+def good(x, scale=1.0, names=("a", "b"), opt=None):
+    local = {}
+    local["k"] = x
+    return local
+'''
+_MEMO = ("lru_cache", "cache", "cached_property", "memoize")
+
+
+_MUTATORS = ("append", "extend", "insert", "update", "setdefault", "pop", "popitem", "clear", "add", "remove", "discard", "__setitem__")
+
+
+def _is_container_literal(v):
+    import ast
+    return isinstance(v, (ast.Dict, ast.List, ast.Set, ast.ListComp, ast.DictComp, ast.SetComp)) or \
+        (isinstance(v, ast.Call) and isinstance(v.func, ast.Name) and v.func.id in ("dict", "list", "set", "defaultdict", "OrderedDict"))
+
+
+def _hidden_state_sites(tree, relpath, qual, module_names):
+    """constructs through which a result can depend on earlier calls: mutable default arguments, `global` rebinding, memoisation
+    decorators, and mutation (subscript / slice stores, mutating method calls) of module-level or class-level containers - directly,
+    through `self.<name>` / `cls.<name>`, or through a local alias.  Read-only tables (name -> method dispatch dictionaries) are fine."""
+    import ast
+    out = []
+    class_names = set()
+    for n in ast.walk(tree):
+        if isinstance(n, ast.ClassDef):
+            for b in n.body:
+                tg = b.targets[0] if isinstance(b, ast.Assign) and len(b.targets) == 1 else (b.target if isinstance(b, ast.AnnAssign) and b.value is not None else None)
+                val = b.value if isinstance(b, (ast.Assign, ast.AnnAssign)) else None
+                if isinstance(tg, ast.Name) and val is not None and _is_container_literal(val):
+                    class_names.add(tg.id)
+
+    def shared(e, aliases):
+        """does expression e denote a module- / class-level container (or a local alias of one)?"""
+        if isinstance(e, ast.Name):
+            return e.id if (e.id in module_names or e.id in aliases) else None
+        if isinstance(e, ast.Attribute) and e.attr in class_names and isinstance(e.value, (ast.Name, ast.Call)):
+            return ast.unparse(e)
+        return None
+    for fn in ast.walk(tree):
+        if isinstance(fn, (ast.FunctionDef, ast.Lambda)):
+            a = fn.args
+            for d in list(a.defaults) + [x for x in a.kw_defaults if x is not None]:
+                if _is_container_literal(d):
+                    out.append(f"{relpath}:{d.lineno} in {qual(d.lineno)}: mutable default argument `{ast.unparse(d)}` is shared between calls")
+        if not isinstance(fn, ast.FunctionDef):
+            continue
+        for dec in fn.decorator_list:
+            name = ast.unparse(dec.func if isinstance(dec, ast.Call) else dec).split(".")[-1]
+            if name in _MEMO:
+                out.append(f"{relpath}:{dec.lineno} in {qual(fn.lineno)}: `@{ast.unparse(dec)[:60]}` memoises results across calls (objects are mutable: "
+                           "normalize / update / update_Sigma change them; arrays are compared by identity)")
+        aliases = set()
+        for n in ast.walk(fn):
+            if isinstance(n, ast.Assign) and len(n.targets) == 1 and isinstance(n.targets[0], ast.Name) and shared(n.value, set()):
+                aliases.add(n.targets[0].id)
+        for n in ast.walk(fn):
+            if isinstance(n, ast.Global):
+                out.append(f"{relpath}:{n.lineno} in {qual(n.lineno)}: `global {', '.join(n.names)}` - module state written by a function")
+            elif isinstance(n, (ast.Assign, ast.AugAssign, ast.Delete)):
+                targets = n.targets if isinstance(n, (ast.Assign, ast.Delete)) else [n.target]
+                for t in targets:
+                    if isinstance(t, ast.Subscript):
+                        nm = shared(t.value, aliases)
+                        if nm:
+                            out.append(f"{relpath}:{n.lineno} in {qual(n.lineno)}: store into the module- / class-level container `{nm}` (state shared by all "
+                                       "instances and calls: a later result can depend on an earlier call)")
+            elif isinstance(n, ast.Call) and isinstance(n.func, ast.Attribute) and n.func.attr in _MUTATORS:
+                nm = shared(n.func.value, aliases)
+                if nm:
+                    out.append(f"{relpath}:{n.lineno} in {qual(n.lineno)}: `{nm}.{n.func.attr}(..)` mutates a module- / class-level container")
+    return out
+
+
+def hidden_state_ob(prog, group):
+    import ast
+    from ..core import Ob, Refuted
+    from ..nf import Undecided
+
+    def module_containers(tree):
+        out = set()
+        for n in tree.body:
+            if isinstance(n, ast.Assign) and _is_container_literal(n.value):
+                out |= {t.id for t in n.targets if isinstance(t, ast.Name)}
+            elif isinstance(n, ast.AnnAssign) and n.value is not None and _is_container_literal(n.value) and isinstance(n.target, ast.Name):
+                out.add(n.target.id)
+        return out
+
+    def run():
+        t = ast.parse(HS_SYNTH)
+        names = module_containers(t)
+        got = _hidden_state_sites(t, "synthetic", lambda l: next((f.name for f in t.body if isinstance(f, ast.FunctionDef) and f.lineno <= l <= f.end_lineno), ""), names)
+        if len(got) != 4 or any("good" in g for g in got):
+            raise Undecided(f"hidden-state rule: synthetic examples give {len(got)} sites (expected 4)")
+        bad, nfun = [], 0
+        for mod, tree in prog.modules.items():
+            nfun += sum(1 for n in ast.walk(tree) if isinstance(n, ast.FunctionDef))
+            bad += _hidden_state_sites(tree, prog.relpath(mod), lambda l, mod=mod: prog.qualname_at(mod, l), module_containers(tree))
+        if nfun < 100:
+            raise Undecided(f"only {nfun} functions scanned")
+        bad = sorted(set(bad))
+        if bad:
+            raise Refuted("; ".join(bad[:2]), bad[0].split(":")[0] + "::" + bad[0].split(" in ")[1].split(":")[0], bad)
+        return [], dict(functions=nfun)
+    return Ob("purity/no-hidden-state", run,
+              "no construct through which a result can depend on earlier calls: mutable default arguments, global rebinding, memoisation decorators, "
+              "stores into module-level containers (instance caches are covered by the write rule of the API-table obligations)",
               "gaussian_toolbox/*", group=group)
